@@ -57,6 +57,13 @@ Section C02.
   Theorem C02_calls_inert : forall h w, Forall (is_call K) h -> run K w h = w.
   Proof. exact (calls_inert K). Qed.
 
+  (* sample_from_distribution is ppf of ONE get_draw: a simulant's sample is ppf of its own draw, so it inherits every
+     invariance above (ppf: any function; scipy's quantile functions are external) *)
+  Theorem C02_sample_from_distribution : forall ppf im k idx ds, get_draw false im k idx = Ok ds ->
+    sample_from K block ppf false im k idx = Ok (map ppf ds) /\
+    forall l d, In (l, d) (combine idx ds) -> sample_from K block ppf false im k [l] = Ok [ppf d].
+  Proof. exact (sample_single K block). Qed.
+
   (* under numpy's contract for random_sample (validated on every draw the check sees) *)
   Theorem C02_unit_interval : (forall k p, 0 <= block k p < two53) ->
     forall c im k idx ds, get_draw c im k idx = Ok ds -> Forall (fun d => 0 <= d < two53) ds.
@@ -160,6 +167,7 @@ Print Assumptions C02_perm_invariant.
 Print Assumptions C02_repeat_invariant.
 Print Assumptions C02_history_invariant.
 Print Assumptions C02_calls_inert.
+Print Assumptions C02_sample_from_distribution.
 Print Assumptions C02_unit_interval.
 Print Assumptions C02_crn_init_positional.
 Print Assumptions C02_distinct_positions.
